@@ -24,7 +24,7 @@ InitCur == [model |-> EmptyModel, memo |-> <<>>, other |-> EmptyModel,
             m0 |-> EmptyModel, m1 |-> EmptyModel, gen |-> 0, wd |-> <<>>, wmemo |-> <<>>, fmt |-> "",
             pj |-> [out |-> "none", anom |-> <<>>, post |-> EmptyModel]]
 
-EditActions == {"EditCard", "EditAddChild", "EditRemoveKid", "EditReplaceKid", "EditMove", "EditReown", "EditImport", "EditAbstract", "EditAttrVal", "EditRemoveCtc",
+EditActions == {"EditCard", "EditAddChild", "EditRemoveKid", "EditReplaceKid", "EditMove", "EditReown", "EditImport", "EditAbstract", "EditAttrVal", "EditAttrName", "EditRemoveAttr", "EditRemoveCtc",
                 "EditCtcOp", "EditRename"}
 BuilderActions == {"NewModel", "AddRelation", "SetAbstract", "SetType", "SetFCard",
                    "AddAttribute", "AddConstraint", "ReplaceConstraint"} \cup EditActions
@@ -68,6 +68,8 @@ BuildExpected(cur, e) ==
     [] e.a = "EditImport"    -> ImportF(cur.model, e.args.ctcs)
     [] e.a = "EditAbstract"  -> ToggleAbstractF(cur.model, e.args.f)
     [] e.a = "EditAttrVal"   -> SetAttrValF(cur.model, e.args.f, e.args.k, e.args.val)
+    [] e.a = "EditAttrName"  -> SetAttrNameF(cur.model, e.args.f, e.args.k, e.args.n)
+    [] e.a = "EditRemoveAttr" -> RemoveAttrF(cur.model, e.args.f, e.args.k)
     [] e.a = "EditRemoveCtc" -> RemoveCtcF(cur.model, e.args.i)
     [] e.a = "EditCtcOp"     -> SetCtcOpF(cur.model, e.args.i, e.args.op)
     [] e.a = "EditRename"    -> RenameF(cur.model, e.args.f, e.args.n)
@@ -80,7 +82,7 @@ EditArgsOK(cur, e) ==
     [] e.a = "EditMove" -> /\ HasRel(m, e.args.o, e.args.ri) /\ HasRel(m, e.args.o2, e.args.ri2)
                            /\ e.args.n \in Kids(m.rels[RelIdx(m, e.args.o, e.args.ri)])
     [] e.a \in {"EditAbstract", "EditRename"} -> e.args.f \in Names(m)
-    [] e.a = "EditAttrVal" -> e.args.f \in Names(m) /\ e.args.k \in DOMAIN FeatOf(m, e.args.f).attrs
+    [] e.a \in {"EditAttrVal", "EditAttrName", "EditRemoveAttr"} -> e.args.f \in Names(m) /\ e.args.k \in DOMAIN FeatOf(m, e.args.f).attrs
     [] e.a \in {"EditRemoveCtc", "EditCtcOp"} -> e.args.i \in DOMAIN m.ctcs
     [] OTHER -> TRUE
 BuildClauses(cur, e) ==
